@@ -69,6 +69,12 @@ const (
 	// check share one loop over a Go map, so a handle can be released partially depending on
 	// iteration order".
 	c23KnownOrder = "c23-final-recheck-order-partial-handle"
+
+	// c23KnownStaleKnode is the signature of the finding "allocation.knode is only refreshed when the
+	// node is scanned; after a node re-registers under the same name a queued confirmed leak can
+	// still carry knode \"\", so the final re-validation treats a tunnel address as ownerless and
+	// looks pods up in the (possibly lagging) cache instead of the API server".
+	c23KnownStaleKnode = "c23-stale-knode-after-node-name-reuse"
 )
 
 type c23Alloc struct {
@@ -976,6 +982,45 @@ func (e *c23Env) orderHazard(full bool) bool {
 	return false
 }
 
+// staleKnodeHazard reports whether the next sync can hit the known stale-knode defect: a pod
+// allocation still queued as a confirmed leak from the time its node was gone (knode ""), the node
+// name exists again, the node will not be re-scanned, and the lagging informer cache says "leaked"
+// while the API server says "in use".
+func (e *c23Env) staleKnodeHazard(full bool) bool {
+	w, c := e.w, e.c
+	for _, cidr := range c23Keys(e.seen) {
+		for _, id := range c23Keys(e.seen[cidr].allocs) {
+			sa := e.seen[cidr].allocs[id]
+			if !(c23IsTunnel(sa.Attrs) || (c23IsPod(sa.Attrs) && !c23IsVM(sa.Attrs))) {
+				continue
+			}
+			a := c.allocationsByBlock[cidr][id]
+			if a == nil || !a.confirmedLeak || a.knode != "" {
+				continue
+			}
+			cnode := sa.Attrs[ipam.AttributeNode]
+			knode, isK8s := w.knodeFor(cnode)
+			if !isK8s || knode == "" {
+				continue
+			}
+			_, dirty := c.allocationState.dirtyNodes[cnode]
+			if full || c.fullSyncRequired || dirty {
+				continue
+			}
+			if c23IsTunnel(sa.Attrs) {
+				if w.k8sNodes[knode] {
+					return true
+				}
+				continue
+			}
+			if !c23CodeValid(w.podsCache, sa.IP, sa.Attrs, "") && w.truthJustified(sa.IP, sa.Attrs) {
+				return true
+			}
+		}
+	}
+	return false
+}
+
 // ---- bookkeeping comparison (R5) ---------------------------------------------------------------
 
 func (e *c23Env) checkBookkeeping() string {
@@ -1231,7 +1276,29 @@ func c23Run(t *rapid.T, rec *ev.Recorder) {
 	w := e.w
 	knownAttrs := ev.Known(c23KnownAttrs)
 	knownOrder := ev.Known(c23KnownOrder)
-	// A deleted node's name is never reused (see limits): five names, each added at most once.
+	knownStale := ev.Known(c23KnownStaleKnode)
+	deletedNodes := map[string]bool{}
+	// hazards reports (and counts) the known-finding situations the next sync would run into.
+	hazards := func(full bool) bool {
+		skip := false
+		if e.orderHazard(full) {
+			e.classes["order-hazard"] = true
+			if knownOrder {
+				rec.Excluded(c23KnownOrder)
+				skip = true
+			}
+		}
+		if e.staleKnodeHazard(full) {
+			e.classes["stale-knode-hazard"] = true
+			if knownStale {
+				rec.Excluded(c23KnownStaleKnode)
+				skip = true
+			}
+		}
+		return skip
+	}
+	// Plain nodeAdd uses five names, each at most once; name reuse happens through the explicit
+	// nodeReuse / nodeReuseAfterFailedRelease steps.
 	nodeNames := []string{"n0", "n1", "n2", "n3", "n4"}
 	usedNodes := map[string]bool{"n0": true, "n1": true}
 	podNames := []string{"p0", "p1", "p2", "p3"}
@@ -1253,7 +1320,7 @@ func c23Run(t *rapid.T, rec *ev.Recorder) {
 	ops := []string{
 		"podAdd", "podAdd", "cniAdd", "cniAdd", "cniAdd", "podReport", "podDel", "podDel", "podDel", "podResched", "podFinish",
 		"cacheSync", "nodeAdd", "nodeAdd", "nodeDel", "calicoNodeDel", "tunnelAdd", "vmAlloc", "vmToggle", "vmiToggle", "oddAlloc",
-		"seqBump", "blockAdd", "blockUnaffine", "blockDel", "lateRelease", "vmAttrRewrite", "podRecreateForLeak", "podRecreateForLeak", "restartRace", "restartRace", "restartRace", "restartRace",
+		"seqBump", "blockAdd", "blockUnaffine", "blockDel", "lateRelease", "vmAttrRewrite", "podRecreateForLeak", "podRecreateForLeak", "restartRace", "restartRace", "restartRace", "restartRace", "nodeReuse", "nodeReuseAfterFailedRelease", "nodeReuseAfterFailedRelease",
 		"deliver", "deliver", "deliver", "tick", "tick", "tick", "sync", "sync", "sync", "sync", "sync", "inSync",
 	}
 	nOps := rapid.IntRange(8, ev.Scale(45, 90)).Draw(t, "nOps")
@@ -1416,12 +1483,8 @@ func c23Run(t *rapid.T, rec *ev.Recorder) {
 			e.log("restartRace: tick(11m) podRecreate(%s on %s ips=%v lag=%v)", name, kn, p.IPs, lag)
 			e.failMode = 0
 			full := rapid.Bool().Draw(t, "periodic")
-			if e.orderHazard(full) {
-				e.classes["order-hazard"] = true
-				if knownOrder {
-					rec.Excluded(c23KnownOrder)
-					continue
-				}
+			if hazards(full) {
+				continue
 			}
 			e.sync(full)
 			check("after restartRace sync")
@@ -1456,8 +1519,67 @@ func c23Run(t *rapid.T, rec *ev.Recorder) {
 			}
 			n := rapid.SampledFrom(nodes).Draw(t, "node")
 			e.nodeDel(n)
+			deletedNodes[n] = true
 			e.classes["node-deleted"] = true
 			e.log("nodeDel(%s)", n)
+		case "nodeReuse":
+			// A node re-registers under the name of a node that was deleted earlier.
+			var cands []string
+			for _, n := range c23Keys(deletedNodes) {
+				if !w.k8sNodes[n] {
+					cands = append(cands, n)
+				}
+			}
+			if len(cands) == 0 {
+				continue
+			}
+			n := rapid.SampledFrom(cands).Draw(t, "node")
+			e.nodeAdd(n)
+			e.classes["node-name-reused"] = true
+			e.log("nodeReuse(%s)", n)
+		case "nodeReuseAfterFailedRelease":
+			// Macro: a node goes away, the sync that would release its addresses fails to release
+			// them, the node re-registers under the same name, then the next sync runs.
+			nodes := existingNodes()
+			if len(nodes) == 0 {
+				continue
+			}
+			n := rapid.SampledFrom(nodes).Draw(t, "node")
+			cn := w.calicoName(n)
+			if b, _ := e.findHandle("vxlan-tunnel-addr-" + cn); b == nil && rapid.IntRange(0, 3).Draw(t, "giveTunnelAddress") != 0 {
+				e.allocate(t, cn, "vxlan-tunnel-addr-"+cn, true, map[string]string{ipam.AttributeNode: cn, ipam.AttributeType: ipam.AttributeTypeVXLAN})
+			}
+			e.deliver(len(w.events))
+			e.nodeDel(n)
+			deletedNodes[n] = true
+			if !w.kdd && rapid.Bool().Draw(t, "calicoNodeGoneToo") {
+				e.calicoNodeDel(cn)
+			}
+			e.log("nodeReuseAfterFailedRelease: nodeDel(%s)", n)
+			e.failMode = rapid.IntRange(1, 2).Draw(t, "failMode")
+			if hazards(true) {
+				e.failMode = 0
+				continue
+			}
+			before := e.releases
+			e.sync(true)
+			check("after nodeReuseAfterFailedRelease sync 1")
+			e.failMode = 0
+			e.nodeAdd(n)
+			e.classes["node-name-reused"] = true
+			if e.releases > before {
+				e.classes["node-name-reused-after-failed-release"] = true
+			}
+			e.log("  nodeReuse(%s)", n)
+			if rapid.Bool().Draw(t, "deliverFirst") {
+				e.deliver(len(w.events))
+			}
+			full := rapid.Bool().Draw(t, "periodic")
+			if hazards(full) {
+				continue
+			}
+			e.sync(full)
+			check("after nodeReuseAfterFailedRelease sync 2")
 		case "calicoNodeDel":
 			if w.kdd {
 				continue
@@ -1681,12 +1803,8 @@ func c23Run(t *rapid.T, rec *ev.Recorder) {
 				e.failMode = rapid.IntRange(1, 2).Draw(t, "failMode")
 			}
 			full := rapid.IntRange(0, 2).Draw(t, "periodic") == 0
-			if e.orderHazard(full) {
-				e.classes["order-hazard"] = true
-				if knownOrder {
-					rec.Excluded(c23KnownOrder)
-					continue
-				}
+			if hazards(full) {
+				continue
 			}
 			e.sync(full)
 			check("after sync")
@@ -1697,13 +1815,13 @@ func c23Run(t *rapid.T, rec *ev.Recorder) {
 	e.cacheSync()
 	e.c.handleUpdate(bapi.InSync)
 	e.failMode = 0
-	if !(knownOrder && e.orderHazard(true)) {
+	if !hazards(true) {
 		e.sync(true)
 		check("after closing sync 1")
 	}
 	e.advance(12 * time.Minute)
 	e.deliver(len(w.events))
-	if !(knownOrder && e.orderHazard(true)) {
+	if !hazards(true) {
 		e.sync(true)
 		check("after closing sync 2")
 	}
@@ -1763,7 +1881,7 @@ func TestVerifC23IPAMGC(t *testing.T) {
 		"random histories of node add/delete (KDD and etcd naming), pod create/delete/reschedule/finish with a lagging pod informer, CNI allocations (1-2 IPs per handle, borrowed blocks), tunnel / KubeVirt VM / odd allocations, sequence-number bumps, block add/unaffine/delete, ordered block event delivery, time steps, GC syncs (dirty-only and full) with injected ReleaseIPs failures; non-trivial when a leak candidate is re-validated, a handle has addresses of mixed validity, the final live re-check decides, or something is actually released; distinct by op-kind sequence + classes",
 		"owner rules are those of design/ipam/ipam-gc.md; 'in use' for a pod allocation means: pod exists now on the allocation's node, not finished, and holds the address or has none reported yet",
 		"'first observed as leaked' is modelled from the documented decision tree applied at every sync to the nodes the controller scans (its dirty set / full-scan flag are read as observation points)",
-		"the pod informer may lag behind the API server except that it is caught up when a node is deleted; node informer and Calico node mapping are never stale; pods are always scheduled; a deleted node's name is never reused",
+		"the pod informer may lag behind the API server except that it is caught up when a node is deleted; node informer and Calico node mapping are never stale; pods are always scheduled; a deleted node's name is reused only by the explicit node-reuse steps",
 		"block events are delivered in order without coalescing; no IPs in cooldown (ReleasedAt) are generated",
 	)
 	defer rec.Write()
@@ -1840,6 +1958,85 @@ func TestVerifC23KnownPartialHandle(t *testing.T) {
 		e.sync(true)
 		if len(e.violations) > 0 {
 			t.Fatalf("finding reproduces (trial %d):\n  %s\nhistory:\n  %s", trial, strings.Join(e.violations, "\n  "), strings.Join(e.hist, "\n  "))
+		}
+	}
+}
+
+// TestVerifC23KnownStaleKnode is the deterministic confirmation of the finding
+// c23-stale-knode-after-node-name-reuse: it FAILS while the finding reproduces.
+//
+// Tunnel variant: node n0 (with a VXLAN tunnel address) is deleted; the full sync confirms the
+// tunnel address as a leak (knode "") but ReleaseIPs fails; n0 re-registers under the same name;
+// the retry sync is not a full scan and n0 is not in the dirty set, so the allocation still carries
+// knode "" and the final re-validation (tunnel valid iff knode != "") lets the live node's tunnel
+// address be released.
+//
+// Pod variant: as above, but another pod keeps n0 "in use" (node marked clean), p0's address is a
+// confirmed leak whose release fails, then p0 is re-created on the re-registered n0 with the
+// informer lagging: knode "" makes the GC ask the stale cache instead of the API server.
+func TestVerifC23KnownStaleKnode(t *testing.T) {
+	ev.Quiet()
+	g := 2*time.Minute + 30*time.Second
+	var found []string
+	{
+		e := c23NewEnv(true, &g)
+		w := e.w
+		e.nodeAdd("n0")
+		e.c.handleUpdate(bapi.InSync)
+		b := &c23Block{CIDR: c23CIDR(0), K: 0, Aff: "n0"}
+		w.blocks[b.CIDR] = b
+		b.Allocs[0] = &c23Alloc{IP: c23IP(0, 0), Handle: "vxlan-tunnel-addr-n0", HasHandle: true, Seq: 1, Attrs: map[string]string{
+			ipam.AttributeNode: "n0", ipam.AttributeType: ipam.AttributeTypeVXLAN}}
+		w.touch(b)
+		e.deliver(len(w.events))
+		e.sync(false)
+		e.nodeDel("n0")
+		e.failMode = 2
+		e.sync(false) // full scan requested by the node deletion; release fails
+		e.failMode = 0
+		e.nodeAdd("n0")
+		e.sync(false) // the retry
+		for _, v := range e.violations {
+			found = append(found, "tunnel variant: "+v)
+		}
+		found = append(found, e.hist...)
+	}
+	{
+		e := c23NewEnv(true, &g)
+		w := e.w
+		e.nodeAdd("n0")
+		e.c.handleUpdate(bapi.InSync)
+		for i, name := range []string{"p0", "p1"} {
+			w.podGen++
+			w.podsLive[name] = &c23Pod{Node: "n0", Gen: w.podGen, IPs: []string{c23IP(0, i)}}
+			e.cacheSetPod(name)
+		}
+		b := &c23Block{CIDR: c23CIDR(0), K: 0, Aff: "n0"}
+		w.blocks[b.CIDR] = b
+		for i, name := range []string{"p0", "p1"} {
+			b.Allocs[i] = &c23Alloc{IP: c23IP(0, i), Handle: "h-" + name + "-1", HasHandle: true, Seq: 1, Attrs: map[string]string{
+				ipam.AttributeNode: "n0", ipam.AttributePod: name, ipam.AttributeNamespace: c23NS}}
+		}
+		w.touch(b)
+		e.deliver(len(w.events))
+		e.sync(true)
+		delete(w.podsLive, "p0")
+		e.cacheSetPod("p0")
+		e.nodeDel("n0")
+		e.failMode = 2
+		e.sync(true)
+		e.failMode = 0
+		e.nodeAdd("n0")
+		w.podGen++
+		w.podsLive["p0"] = &c23Pod{Node: "n0", Gen: w.podGen}
+		e.sync(false)
+		for _, v := range e.violations {
+			found = append(found, "pod variant: "+v)
+		}
+	}
+	for _, f := range found {
+		if strings.Contains(f, "variant: ") {
+			t.Fatalf("finding reproduces:\n  %s", strings.Join(found, "\n  "))
 		}
 	}
 }
